@@ -1482,6 +1482,12 @@ fn wake_send_waiters<T>(waiters: &mut LinkedList<SendWaitQueueEntry<T>>) {''',
      'expect': {'C14': ['C14.R3']}},
     {'name': 'seed-cleanup-close-clears-the-sent-value', 'patch': 'seeded/C12-cleanup-close-clears-the-sent-value/patch.diff',
      'expect': {'C12': ['C12.R6']}},
+    {'name': 'seed-cleanup-shared-stream-forgets-terminated', 'patch': 'seeded/C17-cleanup-shared-stream-fast-path-forgets-terminated/patch.diff',
+     'expect': {'C17': ['C17.R5']}},
+    {'name': 'seed-cleanup-any-receiver-drop-clears-buffer', 'patch': 'seeded/C08-cleanup-any-receiver-drop-clears-buffer/patch.diff',
+     'expect': {'C08': ['C08.R2'], 'C11': ['C11.R6']}},
+    {'name': 'seed-cleanup-last-receiver-skips-clear-when-closed', 'patch': 'seeded/C11-cleanup-last-receiver-skips-clear-when-closed/patch.diff',
+     'expect': {'C11': ['C11.R6']}},
 ]
 
 ALLP = ['C01','C02','C03','C04','C05','C06','C07','C08','C09','C10','C11','C12','C13','C14','C15','C17','C18','C19','C20']
@@ -1843,6 +1849,12 @@ impl<'a, MutexType, T> FusedFuture for ChannelReceiveFuture<'a, MutexType, T> {'
     {'name': 'benign-refactor-RF73-containers-9', 'props': [p for p in ALLP if p != 'C20'] + ['C16'], 'patch': 'benign/RF73/patch.diff'},
     {'name': 'benign-refactor-RF74-parameter-renames', 'props': ALLP + ['C16'], 'patch': 'benign/RF74/patch.diff'},
     {'name': 'benign-refactor-RF75-oneshots-cleanup-repaired', 'props': ALLP + ['C16'], 'patch': 'benign/RF75/patch.diff'},
+    {'name': 'benign-refactor-RF76-mutex-cleanup-repaired', 'props': ALLP + ['C16'], 'patch': 'benign/RF76/patch.diff'},
+    {'name': 'benign-refactor-RF77-semaphore-cleanup-repaired', 'props': ALLP + ['C16'], 'patch': 'benign/RF77/patch.diff'},
+    {'name': 'benign-refactor-RF78-mpmc-endpoint-helper-repaired', 'props': ALLP + ['C16'], 'patch': 'benign/RF78/patch.diff'},
+    {'name': 'benign-refactor-RF79-mpmc-refill-order-repaired', 'props': ALLP + ['C16'], 'patch': 'benign/RF79/patch.diff'},
+    {'name': 'benign-refactor-RF80-mpmc-shutdown-repaired', 'props': ALLP + ['C16'], 'patch': 'benign/RF80/patch.diff'},
+    {'name': 'benign-refactor-RF81-mpmc-stream-helper-repaired', 'props': ALLP + ['C16'], 'patch': 'benign/RF81/patch.diff'},
     {'name': 'benign-unrelated-additions', 'props': ALLP, 'edits': [
         {'file': 'src/sync/semaphore.rs',
          'old': '''    /// Returns the amount of permits that are available on the semaphore
